@@ -724,3 +724,21 @@ Proof.
     apply S3; [simpl; auto|reflexivity]. }
   simpl. split; [right; left; reflexivity|]. repeat split. discriminate.
 Qed.
+
+(* ------------------------------------------------------------------ the hypotheses of the main theorems have a witness for
+   ANY non-empty pair of aligned tables (used for today's generated tables in Properties/C17.v) *)
+
+Definition proto_of (vr : vrow) : inst :=
+  {| i_row := 0; i_cells := seq 0 (length (v_fields vr)); i_origin := 0; i_ovrs := [] |}.
+
+Lemma catalogue_exists er erest vr vrest :
+  vcatalogue_ok (vr :: vrest) (repeat 0%Z (length (v_fields vr))) [proto_of vr] /\
+  (forall p, In p [proto_of vr] -> has_row (er :: erest) p).
+Proof.
+  split; [split|].
+  - intros [|k] i E; simpl in E; [|destruct k; discriminate]. inversion E; subst. clear E.
+    split; [reflexivity|]. split; [reflexivity|]. intros c Hc. simpl in Hc. apply in_seq in Hc.
+    rewrite repeat_length. lia.
+  - intros p [<-|[]]. exists vr. split; [reflexivity|]. simpl. apply seq_length.
+  - intros p [<-|[]]. exists er. reflexivity.
+Qed.
